@@ -1,7 +1,7 @@
 #!/usr/bin/env python3
 """False-alarm test: property-preserving changes (written by sub-agents that saw only the
 property texts) are applied to /repo one at a time; the listed quick checks must stay silent.
-Usage: tools/benign.py <incoming dir> [GROUP ...]; results in /var/tmp/benign-summary.json and
+Usage: tools/benign.py <incoming dir> [GROUP ...] | tools/benign.py rerun [NAME ...]; results in /var/tmp/benign-summary.json and
 copies under /verif/seeded/benign/<group>-<n>/."""
 import json, os, shutil, subprocess, sys, time, glob
 
@@ -11,7 +11,36 @@ GROUPS = {'B1': ['C01', 'C02', 'C19', 'C05', 'C03', 'C06'], 'B2': ['C03', 'C04',
 def sh(cmd, **kw):
     return subprocess.run(cmd, shell=True, text=True, capture_output=True, **kw)
 
+def rerun(names):
+    """tools/benign.py rerun [NAME ...]: the kept changes under /verif/seeded/benign, nothing else needed"""
+    root = '/verif/seeded/benign'
+    names = names or sorted(os.listdir(root))
+    alarms = []
+    for name in names:
+        g = name.split('-')[0]
+        diff = f'{root}/{name}/patch.diff'
+        if sh('git -C /repo status --porcelain --untracked-files=no').stdout.strip():
+            print('/repo is not clean - aborting'); sys.exit(2)
+        if sh(f'git -C /repo apply {diff}').returncode != 0:
+            print(f'[{name}] does not apply'); continue
+        meta = json.load(open(f'{root}/{name}/meta.json'))
+        try:
+            for chk in GROUPS[g]:
+                t0 = time.time()
+                rr = sh(f'cd /verif && VERIF_OUT_DIR=/var/tmp/benign-out-ev VERIF_SEED=1 ./check {chk} quick 2>&1 | grep -E "^VIOLATION|OK:|^\\[{chk}\\] [a-z-]+:|build failed" | head -4')
+                out = rr.stdout.strip()
+                alarm = 'VIOLATION' in out
+                meta.setdefault('checks_run', {})[chk] = {'alarm': alarm, 'broken': 'OK:' not in out and not alarm, 'first_line': out.splitlines()[0][:400] if out else '', 'wall_s': round(time.time() - t0, 1)}
+                print(f'[{name}] {chk}: {"ALARM" if alarm else "silent"} ({time.time()-t0:.1f}s)', flush=True)
+                if alarm: alarms.append((name, chk))
+        finally:
+            sh('git -C /repo checkout -- .')
+        json.dump(meta, open(f'{root}/{name}/meta.json', 'w'), indent=1)
+    print('ALARMS:', alarms)
+
 def main():
+    if sys.argv[1] == 'rerun':
+        return rerun(sys.argv[2:])
     incoming = sys.argv[1]
     groups = sys.argv[2:] or sorted(GROUPS)
     summary = {}
